@@ -219,6 +219,28 @@ func RenderPadded(seq []Tok) string {
 	return b.String()
 }
 
+// RenderGlued: loose spacing, except that nothing separates AND / OR / WITH from the token after them
+// ("MIT ORLicenseRef-a"). The documented grammar is about space-separated tokens and does not say
+// whether this is accepted; callers ask the tree under test before using such a string as a valid prefix.
+func RenderGlued(seq []Tok) string { return RenderGluedExcept(seq, -1) }
+
+// RenderGluedExcept: as RenderGlued, but the keyword at index keep is followed by its space.
+func RenderGluedExcept(seq []Tok, keep int) string {
+	var b strings.Builder
+	for i, t := range seq {
+		switch {
+		case t.K == TPlus:
+		case t.K == TSPlus:
+			b.WriteByte(' ')
+		case i > 0 && i-1 != keep && (seq[i-1].K == TAnd || seq[i-1].K == TOr || seq[i-1].K == TWith):
+		case i > 0:
+			b.WriteByte(' ')
+		}
+		b.WriteString(t.Text)
+	}
+	return b.String()
+}
+
 // ---------------------------------------------------------------- grammar recogniser (R-gram)
 
 // Derives reports whether the token sequence derives from the documented grammar.
